@@ -112,6 +112,14 @@ def fixed_leaves():
     L["H2c"] = householder([1, 1j], q(1), "c64")
     L["K22"] = kernel([0, 1], [1, 2], 1, 2, "f32")
     L["K33"] = kernel([1, 0, 2], [1, 2, 3], 2, 2, "f64")
+    # leaves on which annotations are *true* (TLC re-verifies with Holds before wrapping)
+    L["Hc22"] = dense([[2, 1 + 1j], [1 - 1j, 3]], "c64")       # Hermitian positive definite
+    L["Sy22"] = dense([[2, 1], [1, 2]], "f64")                 # symmetric positive definite
+    L["Sy22i"] = dense([[1, 2], [2, -1]], "f32")               # symmetric indefinite
+    L["Sy33"] = dense([[2, -1, 0], [-1, 2, -1], [0, -1, 2]], "f64")
+    L["Un22"] = dense([[0, 1], [1, 0]], "f32")                 # real unitary
+    L["Un22c"] = dense([[1j, 0], [0, 1]], "c64")               # complex unitary, not Hermitian
+    L["St32"] = dense([[1, 0], [0, 1], [0, 0]], "f64")         # orthonormal columns, not square
     L["F4"] = fft(4, "c64")
     L["F1"] = fft(1, "c128")
     return L
@@ -196,3 +204,19 @@ def scalars():
         {"c": q(1, 1), "ck": "pycomplex"},
         {"c": q(1, -1), "ck": "npc64"},
     ]
+
+
+def array_leaves():
+    """Plain arrays used as operands of the algebra (cola lazifies them)."""
+    return {
+        "A22": node("Array", {"m": mat([[1, -1], [2, 0]]), "dt": "f32"}),
+        "A23": node("Array", {"m": mat([[0, 1, 2], [1, 1, -1]]), "dt": "f64"}),
+        "A22c": node("Array", {"m": mat([[1j, 1], [0, 2 - 1j]]), "dt": "c64"}),
+    }
+
+
+def index_forms():
+    """Index forms for __getitem__: ints, slices, integer arrays and lists."""
+    ints = [{"t": "int", "v": v} for v in (0, 1, -1, -2)]
+    lists = [{"t": "list", "v": [0, 1]}, {"t": "list", "v": [1, 0]}, {"t": "list", "v": [-1, 0]}, {"t": "list", "v": [0]}]
+    return ints + slice_forms() + lists
